@@ -83,20 +83,79 @@ func init() {
 				g.err = nil
 				return Tuple{out, err}
 			}
-			if len(g.buf.B) >= bufioSize {
-				ex.unsupported(fr, "bufio line longer than the 4096-byte buffer")
-			}
 			if tries > 100 {
 				return Tuple{g.buf, ex.mkError("multiple Read calls return no data or error")}
 			}
 			// fill: one Read into the free part of the buffer
-			free := bufioSize - len(g.buf.B)
+			free := bufioSize
 			sl := ex.makeSlice(types.Typ[types.Uint8], free, free)
 			res := ex.invoke(fr, g.rd, "Read", sl).(Tuple)
 			n := ex.concreteInt(fr, res[0], "Read n")
 			if n < 0 || n > free {
 				panic(&goPanic{Val: &Iface{T: types.Typ[types.String], V: ex.mkStr("bufio: reader returned negative count from Read")}, Kind: "explicit:bufio bad Read count", Where: ex.where(fr)})
 			}
+			arr := sl.Arr.V.(*ArrayV)
+			nb := append([]*Term(nil), g.buf.B...)
+			for i := 0; i < n; i++ {
+				nb = append(nb, arr.E[i].(*Term))
+			}
+			g.buf = &Str{B: nb}
+			if !isNilIface(res[1]) {
+				g.err = res[1]
+			}
+		}
+	}
+	// ReadLine: a line that does not fit the 4096-byte buffer is returned in
+	// fragments with isPrefix set (the fragment boundary is the buffer size).
+	m["(*bufio.Reader).ReadLine"] = func(ex *Exec, fr *frame, a []Value) Value {
+		p := a[0].(*Ptr)
+		if p.Obj == nil {
+			ex.goPanicRuntime("nil pointer dereference")
+		}
+		g := p.Obj.Ghost.(*readerGhost)
+		nl := &Str{B: []*Term{ex.B.Const(8, '\n')}}
+		bytesOf := func(s []*Term) Value {
+			arr := &ArrayV{E: make([]Value, len(s))}
+			for i, b := range s {
+				arr.E[i] = b
+			}
+			obj := ex.newObject(nil, arr, "ReadLine")
+			return &Slice{Arr: obj, Len: len(s), Cap: len(s)}
+		}
+		for tries := 0; ; tries++ {
+			win := g.buf
+			if len(win.B) > bufioSize {
+				win = &Str{B: g.buf.B[:bufioSize]}
+			}
+			if i := ex.indexFork(win, nl, false); i >= 0 {
+				line := g.buf.B[:i]
+				g.buf = &Str{B: g.buf.B[i+1:]}
+				if len(line) > 0 && ex.X.Branch(ex.B.Eq(line[len(line)-1], ex.B.Const(8, '\r'))) {
+					line = line[:len(line)-1]
+				}
+				return Tuple{bytesOf(line), ex.B.False, &Iface{}}
+			}
+			if len(g.buf.B) >= bufioSize {
+				line := g.buf.B[:bufioSize]
+				g.buf = &Str{B: g.buf.B[bufioSize:]}
+				return Tuple{bytesOf(line), ex.B.True, &Iface{}}
+			}
+			if g.err != nil {
+				if len(g.buf.B) == 0 {
+					err := g.err
+					g.err = nil
+					return Tuple{&Slice{Nil: true}, ex.B.False, err}
+				}
+				line := g.buf.B
+				g.buf = &Str{}
+				return Tuple{bytesOf(line), ex.B.False, &Iface{}}
+			}
+			if tries > 100 {
+				return Tuple{&Slice{Nil: true}, ex.B.False, ex.mkError("multiple Read calls return no data or error")}
+			}
+			sl := ex.makeSlice(types.Typ[types.Uint8], bufioSize, bufioSize)
+			res := ex.invoke(fr, g.rd, "Read", sl).(Tuple)
+			n := ex.concreteInt(fr, res[0], "Read n")
 			arr := sl.Arr.V.(*ArrayV)
 			nb := append([]*Term(nil), g.buf.B...)
 			for i := 0; i < n; i++ {
